@@ -1660,6 +1660,8 @@ class Interp:
                     return o
             r = m.getattr_static(base, attr)
             return self._from_model(r)
+        if isinstance(base, M.External) and base.name == 're' and attr in ('I', 'S', 'M', 'X', 'A', 'U', 'IGNORECASE', 'DOTALL', 'MULTILINE', 'VERBOSE', 'ASCII', 'UNICODE'):
+            return int(getattr(_re_mod, attr))
         if isinstance(base, M.External) and base.name in ('re', 'operator', 'os', 'os.path', 'glob', 'posixpath', 'string', 'itertools', 'html') and not attr.startswith('_') \
            and not (base.name == 'string' and attr != 'Template'):
             return M.External('%s.%s' % (base.name, attr))
@@ -1674,6 +1676,8 @@ class Interp:
             return ('boundmethod', base, attr)
         if isinstance(base, _REAL_TYPES) and not attr.startswith('_') and callable(getattr(base, attr, None)):
             return ('boundmethod', base, attr)
+        if isinstance(base, _pathlib.PurePosixPath) and attr in ('name', 'stem', 'suffix', 'parent', 'parts', 'suffixes'):
+            return getattr(base, attr)
         if isinstance(base, (list, dict)) and attr in ('append', 'extend', 'insert', 'pop', 'copy', 'keys', 'values', 'items', 'get', 'update', 'clear', 'index', 'remove', 'reverse', 'setdefault'):
             return ('boundmethod', base, attr)
         if isinstance(base, set) and attr in ('add', 'discard', 'remove', 'update', 'clear', 'copy', 'pop', 'union', 'intersection', 'difference', 'issubset', 'issuperset'):
@@ -2286,6 +2290,13 @@ class Interp:
            and not isinstance(args[0], M._StringLetters) and all(isinstance(v, (bool, int)) for v in kwargs.values()):
             import html as _html_mod
             return getattr(_html_mod, fval.name[5:])(*[str(a) if isinstance(a, str) else a for a in args], **kwargs)
+        if isinstance(fval, M.External) and fval.name in ('urllib.parse.urljoin', 'urljoin', 'urllib.parse.quote', 'urllib.parse.unquote') \
+           and args and all(isinstance(a, str) and _plain(a) for a in args) and not kwargs:
+            import urllib.parse as _up
+            return getattr(_up, fval.name.split('.')[-1])(*args)
+        if isinstance(fval, M.External) and fval.name in ('os.path.join', 'os.path.basename', 'os.path.dirname', 'os.path.splitext', 'os.path.split',
+                                                          'os.path.normpath') and args and any(isinstance(a, _pathlib.PurePosixPath) for a in args):
+            args = [str(a) if isinstance(a, _pathlib.PurePosixPath) else a for a in args]
         if isinstance(fval, M.External) and fval.name in ('os.path.join', 'os.path.basename', 'os.path.dirname', 'os.path.splitext', 'os.path.split',
                                                           'os.path.normpath') and args and all(isinstance(a, str) for a in args) and not kwargs:
             import posixpath as _pp
@@ -2414,6 +2425,7 @@ class Interp:
             return TOP
         if isinstance(recv, _REAL_TYPES):
             # methods of library objects built from constants (compiled patterns, string templates): the library's own semantics
+            args = [str(a) if isinstance(a, TextObj) else a for a in args]          # a text node is a string for the library
             if all(_plain(a) for a in args) and all(_plain(v) for v in kwargs.values()):
                 try:
                     return getattr(recv, meth)(*args, **kwargs)
@@ -2534,7 +2546,8 @@ import string as _string_mod
 import collections.abc as _abc
 _ABCS = {'Sequence': _abc.Sequence, 'Mapping': _abc.Mapping, 'Iterable': _abc.Iterable, 'MutableSequence': _abc.MutableSequence,
          'MutableMapping': _abc.MutableMapping, 'Set': _abc.Set, 'Sized': _abc.Sized, 'Hashable': _abc.Hashable, 'Callable': _abc.Callable}
-_REAL_TYPES = (_re_mod.Pattern, _string_mod.Template, _re_mod.Match)
+import pathlib as _pathlib
+_REAL_TYPES = (_re_mod.Pattern, _string_mod.Template, _re_mod.Match, _pathlib.PurePosixPath)
 
 
 def _plain(v):
